@@ -186,6 +186,10 @@ def render_value(ctx, v, kind, tyname, out):
         if t is PathV:
             fmt_push(out, v0.to_str())
             return
+        if t is Agg and v0.ty == 'It:seq' and all(type(c) is int for c in v0.fields[0]):
+            items, i, j = v0.fields
+            fmt_push(out, ''.join(chr(c) for c in items[i:j]))      # char iterators that implement Display
+            return
         if t is Agg and '::' in v0.ty or (t is Agg and v0.ty not in ('tuple', 'Option', 'Result')):
             tgt = resolve(ctx.prog, '<%s as Display>::fmt' % v0.ty)
             if tgt[0] == 'mir':
@@ -214,7 +218,43 @@ def render_value(ctx, v, kind, tyname, out):
     if t is float and kind == 'debug':
         fmt_push(out, fmt_f64_debug(v0))
         return
+    if kind == 'debug':
+        txt = debug_text(v0, tyname)
+        if txt is not None:
+            fmt_push(out, txt)
+            return
     fmt_push(out, (kind, v0))
+
+
+def debug_text(v, tyname=''):
+    """`{:?}` of concrete std values (Option, Result, Vec/slices, tuples, unit); None when it cannot be rendered exactly"""
+    v = D(v)
+    t = type(v)
+    if t is bool:
+        return 'true' if v else 'false'
+    if t is int:
+        return ("'" + chr(v) + "'") if tyname == 'char' else str(v)
+    if t is float:
+        return fmt_f64_debug(v)
+    if t is str:
+        return escape_debug_str(v)
+    if t is VecV:
+        parts = [debug_text(x) for x in v.items]
+        return None if any(p is None for p in parts) else '[' + ', '.join(parts) + ']'
+    if t is Agg and v.ty == 'Option':
+        if v.variant == 0:
+            return 'None'
+        inner = debug_text(v.fields[0])
+        return None if inner is None else 'Some(%s)' % inner
+    if t is Agg and v.ty == 'Result':
+        inner = debug_text(v.fields[0])
+        return None if inner is None else '%s(%s)' % ('Ok' if v.variant == 0 else 'Err', inner)
+    if t is Agg and v.ty in ('tuple', '()') and v.variant is None:
+        parts = [debug_text(x) for x in v.fields]
+        if any(p is None for p in parts):
+            return None
+        return '(' + ', '.join(parts) + (',' if len(parts) == 1 else '') + ')'
+    return None
 
 
 def render_arguments(ctx, args, out):
@@ -226,11 +266,112 @@ def render_arguments(ctx, args, out):
             a = D(arg)
             if opts:
                 fl = opts.get('flags')
-                if a.fields[1] == 'debug' or set(opts) <= {'flags'} and a.fields[1] == 'debug':
+                if set(opts) <= {'flags'} and a.fields[1] == 'debug' and not ((fl or 0) & (1 << 23)):
                     render_value(ctx, a.fields[0], 'debug', a.fields[2], out)
                     continue
-                raise Unsupported('format options %r' % (opts,))
+                fmt_push(out, render_with_options(ctx, a, opts))
+                continue
+            if a.fields[1] in ('lower_hex', 'upper_hex', 'octal', 'binary', 'lower_exp'):
+                fmt_push(out, render_with_options(ctx, a, {}))
+                continue
             render_value(ctx, a.fields[0], a.fields[1], a.fields[2], out)
+
+
+def render_with_options(ctx, a, opts):
+    """`{:>5}`, `{:05}`, `{:+}`, `{:x}`, `{:#x}`, `{:b}`, `{:.2}`, `{:e}` ... for concrete values (std::fmt::Formatter::pad /
+    pad_integral / float formatting); symbolic values with layout options are not modelled"""
+    v = D(a.fields[0])
+    kind = a.fields[1]
+    ty = a.fields[2] or ''
+    flags = opts.get('flags', 0x60000020)
+    fill = chr(flags & 0x1FFFFF) if flags & 0x1FFFFF else ' '
+    plus = bool(flags & (1 << 21))
+    alt = bool(flags & (1 << 23))
+    zero = bool(flags & (1 << 24))
+    align = (flags >> 29) & 3
+
+    def optval(k):
+        x = opts.get(k)
+        if type(x) is tuple and x[0] == 'arg':
+            x = D(D(x[1]).fields[0])
+        if x is not None and is_sym(x):
+            raise Unsupported('symbolic format %s' % k)
+        return x
+    width = optval('width')
+    prec = optval('precision')
+    if is_sym(v) or type(v) in (SymStr, FmtV) and any(is_sym(b) for b in seq_items(v)):
+        raise Unsupported('format options %r on a symbolic value' % (opts,))
+    if type(v) in (SymStr, FmtV):
+        v = bytes(seq_items(v)).decode('utf-8', 'replace')
+    numeric = False
+    prefix = ''
+    sign = ''
+    if type(v) is bool:
+        body = 'true' if v else 'false'
+        if prec is not None:
+            body = body[:prec]
+    elif type(v) is int and ty != 'char':
+        numeric = True
+        if kind in ('lower_hex', 'upper_hex', 'octal', 'binary'):
+            bits = (ty_bits(ty.lstrip('&')) or (64, True))[0] if ty else 64
+            u = v & ((1 << bits) - 1)
+            body = {'lower_hex': '%x' % u, 'upper_hex': '%X' % u, 'octal': '%o' % u, 'binary': bin(u)[2:]}[kind]
+            prefix = {'lower_hex': '0x', 'upper_hex': '0x', 'octal': '0o', 'binary': '0b'}[kind] if alt else ''
+        elif kind == 'lower_exp':
+            raise Unsupported('{:e} of an integer')
+        else:
+            body = str(abs(v))
+            sign = '-' if v < 0 else ('+' if plus else '')
+    elif type(v) is float:
+        numeric = True
+        neg = v < 0 or (v == 0 and str(v).startswith('-'))
+        av = abs(v)
+        if v != v:
+            body = 'NaN'
+            neg = False
+        elif av == float('inf'):
+            body = 'inf'
+        elif kind == 'lower_exp':
+            from decimal import Decimal
+            d = Decimal(repr(av))
+            sg, digits, ex = d.as_tuple()
+            ds = ''.join(map(str, digits)).rstrip('0') or '0'
+            e10 = len(digits) - 1 + ex if av != 0 else 0
+            if prec is not None:
+                ds = ('%.*e' % (prec, av)).split('e')[0].replace('.', '')
+            body = ds[0] + ('.' + ds[1:] if len(ds) > 1 else '') + 'e' + str(e10)
+        elif prec is not None:
+            from decimal import Decimal, ROUND_HALF_EVEN
+            body = str(Decimal(av).quantize(Decimal(1).scaleb(-prec), rounding=ROUND_HALF_EVEN)) if prec > 0 else str(Decimal(av).quantize(Decimal(1), rounding=ROUND_HALF_EVEN))
+        else:
+            body = fmt_f64_debug(av) if kind == 'debug' else fmt_f64(av)
+        sign = '-' if neg else ('+' if plus else '')
+    elif type(v) is int and ty == 'char':
+        body = chr(v) if kind != 'debug' else repr(chr(v)).replace('"', "'") if False else ("'" + chr(v) + "'")
+    elif type(v) is str:
+        body = escape_debug_str(v) if kind == 'debug' else v
+        if prec is not None and kind != 'debug':
+            body = body[:prec]
+    else:
+        sub = new_formatter()
+        render_value(ctx, v, kind, ty, sub)
+        body = assemble(fmt_pieces(sub))
+        if type(body) is not str:
+            raise Unsupported('format options %r on %r' % (opts, v))
+    text = sign + prefix + body
+    if width is None or len(text) >= width:
+        return text
+    pad = width - len(text)
+    if numeric and zero:
+        return sign + prefix + '0' * pad + body
+    if align == 3:
+        align = 1 if numeric else 0
+    if align == 0:
+        return text + fill * pad
+    if align == 1:
+        return fill * pad + text
+    left = pad // 2
+    return fill * left + text + fill * (pad - left)
 
 
 def format_to_value(ctx, args):
@@ -275,8 +416,10 @@ def decode_template(tmpl, argv):
             if b & 8:
                 ai = int.from_bytes(bytes(tmpl[i:i + 2]), 'little')
                 i += 2
-            if b & 48:
-                opts['indirect'] = True
+            if b & 16 and 'width' in opts:
+                opts['width'] = ('arg', argv[opts['width']])
+            if b & 32 and 'precision' in opts:
+                opts['precision'] = ('arg', argv[opts['precision']])
             pieces.append((argv[ai], opts or None))
             ai += 1
     return pieces
@@ -574,7 +717,17 @@ def install(prog):
     @B('String::truncate', 'std::string::String::truncate')
     def b_string_truncate(ctx, a, callee):
         s = R(a[0]).load()
-        R(a[0]).store(mkstr(sbytes(s)[:a[1]]))
+        bs = sbytes(s)
+        n = D(a[1])
+        if is_sym(n):
+            raise Unsupported('String::truncate with a symbolic length')
+        if n < len(bs):
+            b = bs[n]
+            # truncating inside a multi-byte character panics (assert!(self.is_char_boundary(new_len)))
+            inside = z3.And(z3.UGE(b, 0x80), z3.ULT(b, 0xC0)) if is_sym(b) else 0x80 <= b < 0xC0
+            if ctx.branch(inside):
+                raise Panic('assertion failed: self.is_char_boundary(new_len)', ctx.where())
+            R(a[0]).store(mkstr(bs[:n]))
         return UNIT
 
     @B('String::from_utf8', 'std::string::String::from_utf8', 'core::str::from_utf8', 'std::str::from_utf8')
